@@ -4,7 +4,7 @@
 # suite passes (exit status and PASS count), the demonstration exits 1 with the change and 0 without it.
 S=$(cd "$1" && pwd)
 A=$(mktemp -d /tmp/seedconf_a.XXXXXX); B=$(mktemp -d /tmp/seedconf_b.XXXXXX)
-rsync -a --exclude .git /repo/ "$A"/; rsync -a --exclude .git /repo/ "$B"/
+rsync -a --exclude .git --exclude '*.o' --exclude '*.a' /repo/ "$A"/; rsync -a --exclude .git --exclude '*.o' --exclude '*.a' /repo/ "$B"/
 if ! (cd "$A" && patch -p1 --no-backup-if-mismatch < "$S/patch.diff" > "$A/.patch.log" 2>&1); then echo "PATCH FAILED"; cat "$A/.patch.log"; rm -rf "$A" "$B"; exit 3; fi
 (cd "$A" && ./configure >/dev/null && make -j16 >/dev/null 2>&1; echo "compile(with)=$?")
 (cd "$B" && ./configure >/dev/null && make -j16 >/dev/null 2>&1; echo "compile(without)=$?")
